@@ -47,6 +47,14 @@ def pts_list(a):
 
 
 def run_case(case):
+    try:
+        return _run_case(case)
+    except Exception as e:  # pylint: disable=broad-except
+        # an exception of the code under test is an observation, not a harness failure
+        return {"case": case, "obs": {"res": "err:" + type(e).__name__, "raised": True}}
+
+
+def _run_case(case):
     what = case["what"]
     if what == "layout":
         g = make_grid(case["L"])
